@@ -8,7 +8,7 @@ import operator
 
 from mc.explore import Stats, pmap, chunks, Product, seeded_rng, HarnessError
 
-OPERANDS = [0, 1, -1, 2, 7, -3, 2 ** 62, True, 0.0, -0.0, 0.5, -1.5, 1e308, 5e-324,
+OPERANDS = [0, 1, -1, 2, 7, -3, 2 ** 62, 2 ** 53 + 1, 10 ** 400, True, 0.0, -0.0, 0.5, -1.5, 1e308, 5e-324,
             float('inf'), float('-inf'), float('nan')]
 
 BINOPS = [('+', operator.add), ('-', operator.sub), ('*', operator.mul), ('/', operator.truediv),
@@ -156,7 +156,7 @@ def run(ctx):
     if st.c['executions'] + sum(st.skips.values()) * len(SHAPES) < space.leaves():
         raise HarnessError('enumeration incomplete: %d < %d' % (st.c['executions'], space.leaves()))
     return {'stats': st, 'exhaustive': True,
-            'rule': 'complete product: 17 operands^2 x units x (13 arithmetic/bitwise + 6 comparison operators) x 6 operand shapes, '
+            'rule': 'complete product: 19 operands^2 x units x (13 arithmetic/bitwise + 6 comparison operators) x 6 operand shapes, '
                     '+ 3-argument pow with Quantity base, + 7 unary operators/conversions; distinct = distinct '
                     '(operator, a, b, shape, unit); every case is non-trivial (it evaluates an operator on a real Quantity)',
             'coverage': {'bounds': {'operands': len(OPERANDS), 'units': units, 'binary_ops': len(BINOPS), 'cmp_ops': len(CMPOPS),
